@@ -1,5 +1,5 @@
 From Coq Require Import List NArith Bool.
-From LTV.C17 Require Import Model Proofs ProofsA ProofsB ProofsC ProofsD ProofsE ProofsF ProofsG ProofsH ProofsI ProofsJ ProofsK.
+From LTV.C17 Require Import Model Proofs ProofsA ProofsB ProofsC ProofsD ProofsE ProofsF ProofsG ProofsH ProofsI ProofsJ ProofsK ProofsL.
 Import ListNotations.
 
 (* Conventions: all theorems quantify over ALL client programs [progs], callback bodies [bds], id counts and
@@ -209,7 +209,44 @@ Theorem single_arg_mutual_cancel_deadlocks :
 Proof. exact ProofsB.single_arg_mutual_cancel_deadlocks. Qed.
 Print Assumptions single_arg_mutual_cancel_deadlocks.
 
-(* MUTUAL_CANCEL_NO_DEADLOCK - PARTIAL (finite instance, bound in the statement): from the reachable
+(* MUTUAL_CANCEL_NO_DEADLOCK for the general two-thread 0x8 protocol - ALL programs, bodies, id counts, thread counts
+   and schedules. Invariant [deadlock_flag_invariant]: the 0x8 flag of an id is set iff exactly one thread stands between
+   its successful dl_cas and its dl_fetch_and (the setter). Hence:
+   - whenever the flag is set, the setter exists, is ENABLED, and its next one or two steps (dl_fetch_add, dl_fetch_and)
+     clear the flag [deadlock_flag_has_enabled_setter, setter_clears_flag];
+   - a thread blocked in wait_for_deadlock sees the flag set, so ANOTHER thread - the setter - is enabled
+     [mutual_cancel_no_deadlock]: two threads both inside cancel_callback_and_wait(id, other) on the handshake path are
+     never both blocked, and the wait ends after at most two steps of the setter (the handshake path contains no
+     other wait: Model.step, the IDl items).
+   The counter path of a caller that is NOT inside a callback of the id waits for the count as the single-argument
+   form does (cancel_two_arg_outside_is_single); with several ids two threads can still block each other there
+   (each inside a callback of a different id, cancelling the other's): outside the property ("a shared id"). *)
+Theorem deadlock_flag_invariant : forall progs nids bds c i w,
+  reachable (init progs nids bds) c -> crashed c = false -> nth_error (ids c) i = Some w ->
+  b2n (dl w) = dsum i (threads c).
+Proof. intros. eapply ProofsL.reachable_dl; eauto. Qed.
+Print Assumptions deadlock_flag_invariant.
+Theorem deadlock_flag_has_enabled_setter : forall progs nids bds c i w,
+  reachable (init progs nids bds) c -> crashed c = false -> nth_error (ids c) i = Some w -> dl w = true ->
+  exists t th r, nth_error (threads c) t = Some th /\
+    (todo th = IDlAdd i :: IDlAnd i :: r \/ todo th = IDlAnd i :: r) /\ enabled c t = true.
+Proof. exact ProofsL.deadlock_flag_has_enabled_setter. Qed.
+Print Assumptions deadlock_flag_has_enabled_setter.
+Theorem mutual_cancel_no_deadlock : forall progs nids bds c t th i old r w,
+  reachable (init progs nids bds) c -> crashed c = false ->
+  nth_error (threads c) t = Some th -> todo th = IDlWWait i old :: r ->
+  nth_error (ids c) i = Some w -> word_eqb w old = true ->
+  exists t2 th2 r2, t2 <> t /\ nth_error (threads c) t2 = Some th2 /\
+    (todo th2 = IDlAdd i :: IDlAnd i :: r2 \/ todo th2 = IDlAnd i :: r2) /\ enabled c t2 = true.
+Proof. exact ProofsL.mutual_cancel_no_deadlock. Qed.
+Print Assumptions mutual_cancel_no_deadlock.
+Theorem setter_clears_flag : forall c t th i r w c',
+  nth_error (threads c) t = Some th -> todo th = IDlAnd i :: r -> nth_error (ids c) i = Some w ->
+  step c t = Some c' -> exists w', nth_error (ids c') i = Some w' /\ dl w' = false.
+Proof. exact ProofsL.setter_clears_flag. Qed.
+Print Assumptions setter_clears_flag.
+
+(* sanity instance of the above (finite, bound in the statement; kept as an Example-style check): from the reachable
    state in which both threads are inside a callback of the shared id and about to call
    cancel_callback_and_wait(id, other), every maximal interleaving finishes both threads within 40
    steps. MISSING: the statement for arbitrary two-thread programs (needs a progress measure on top of
